@@ -23,7 +23,29 @@ def kwargs(case):
     return kw
 
 
+FLIPS = ["sort", "auth", "ts", "index", "proto", "sub", "amp", "fix", "quoted", "frag"]
+
+
+def execute_frame(case):
+    from ural import normalize_url
+    u = dec(case["u"])
+    r0, exc = guarded(normalize_url, u, infer_redirection=False)
+    flips = []
+    for o in FLIPS:
+        kw = {"infer_redirection": False}
+        if o == "frag":
+            kw["strip_fragment"] = False
+        else:
+            kw[KW[o]] = not {"quoted": False}.get(o, True)
+        r, e = guarded(normalize_url, u, **kw)
+        exc = exc or e
+        flips.append({"o": o, "r": enc(r or "")})
+    return {"id": case["id"], "kind": "frame", "u": case["u"], "t": case["u"], "o": case["o"], "r": enc(r0 or ""), "flips": flips, "exc": exc or ""}
+
+
 def execute(case):
+    if case.get("kind") == "frame":
+        return execute_frame(case)
     from ural import normalize_url, infer_redirection
     u = dec(case["u"])
     t = u
@@ -35,10 +57,12 @@ def execute(case):
     r = None
     if exc is None:
         r, exc = guarded(normalize_url, u, **kwargs(case))
-    return {"id": case["id"], "u": case["u"], "t": enc(t), "o": case["o"], "r": enc(r) if r is not None else [], "exc": exc or ""}
+    return {"id": case["id"], "kind": "call", "u": case["u"], "t": enc(t), "o": case["o"], "r": enc(r) if r is not None else [], "flips": [], "exc": exc or ""}
 
 
 def describe(case):
+    if case.get("kind") == "frame":
+        return "normalize_url(%r) under the default options vs. every single option flipped (frame)" % dec(case["u"])
     kw = kwargs(case)
     defaults = {"sort_query": True, "strip_authentication": True, "strip_trailing_slash": True, "strip_index": True, "strip_protocol": True,
                 "strip_irrelevant_subdomains": True, "strip_fragment": "except-routing", "normalize_amp": True, "fix_common_mistakes": True,
@@ -56,7 +80,7 @@ TRACE_CFG = "SPECIFICATION TrSpec\n" + _cfg([1])
 
 def run(ctx):
     allidx = list(range(1, NURLS + 1))
-    ctx.model_check("C05", cfg_text="SPECIFICATION Spec\nINVARIANT ContractHolds\n" + _cfg(allidx), env=ENV,
+    ctx.model_check("C05", cfg_text="SPECIFICATION Spec\nINVARIANT ContractHolds\nINVARIANT FrameHolds\n" + _cfg(allidx), env=ENV,
                     label="S:C05 contract vs reference model, %d urls x all 1536 option vectors" % NURLS)
     data, _ = ctx.generate("Gen_C05", cfg_text="INIT GenInit\nNEXT GenNext\n" + _cfg(allidx), env=ENV, heap="12g")
     cases = []
@@ -95,6 +119,17 @@ def run(ctx):
         for n, o in enumerate(vectors):
             cases.append({"u": enc(a[0]), "o": o, "infer": n % 2 == 0, "platform": False})
     ctx.extra["test_suite_inputs"] = len(hv)
+    # frame events: default result vs every single flip, on every distinct parseable, host-carrying URL seen so far
+    seen_u = []
+    for c in cases:
+        t = tuple(c["u"])
+        if t not in seen_u:
+            seen_u.append(t)
+    for t in seen_u:
+        text = dec(list(t)).lower()
+        if "facebook" in text or "youtu" in text:
+            continue
+        cases.append({"kind": "frame", "u": list(t), "o": DEF, "infer": False, "platform": False})
     failing = core.judge(ctx, "harness.checks.c05", cases, "Trace_C05", TRACE_CFG, describe, env=ENV,
                          nontrivial=lambda c, e: (tuple(c["u"]), repr(sorted(c["o"].items()))) if e["r"] != c["u"] else None)
     ctx.traces_validated = len(cases)
